@@ -60,7 +60,10 @@ def plan(tier, seed):
 def make_scenario(spec, seed, idx):
     r = core.rng_for(ID, seed, idx)
     k = spec['k']
-    base = {'config': 'fault-inject', 'pad': '3CJ', 'start_error': 0, 'knobs': {}, 'lenient': False, 'errors': []}
+    base = {'config': 'fault-inject', 'start_error': 0, 'knobs': {}, 'lenient': False, 'errors': [],
+            # serial numbers whose first characters are not ASCII, or look like another variant's letter; id spellings int(x, 16) accepts
+            'pad': r.choice(('3CJ', '3CJ', 'ABZ', '\u00e9BJ', '\u00e98K', '\u00f14Q', '\u4e2d6Z', 'B8J', '64K')),
+            'device_id': r.choice(('28e9:0189', '28e9:0189', '28E9:0189', '0x28e9:0x0189', '28e9:189'))}
     if k in ('o', 'ro'):
         if k == 'o':
             v, n = spec['v'], spec['len']
@@ -107,7 +110,7 @@ def make_scenario(spec, seed, idx):
         op = r.choice(('erase', 'write', 'write', 'erase', 'setaddr'))
         pos = r.choice((pages - 1, pages - 1, 0, r.randrange(pages)))
         errs.append({'op': op, 'n': pos, 'status': r.randint(1, 15)})
-    base.update(clause=2, variant=v, pad=r.choice(('3CJ', 'ABZ', '00Q9')),
+    base.update(clause=2, variant=v,
                 fw={'len': n, 'kind': r.choice(('random', 'mixed')), 'seed': r.randrange(1 << 30)},
                 init={'kind': r.choice(('ff', 'random', 'old')), 'seed': r.randrange(1 << 30)},
                 start_error=r.choice((0, 0, 0, r.randint(1, 15))),
